@@ -44,12 +44,12 @@ def secrets(rng):
     base = ["", "a", "password", "pässwörd-𝄞", "x\u00b2", "x2", "\ufb01le", "file", "e\u0301", "\u00e9", "x" * 10000, "pass", "passw", "password1", " password", "PASSWORD",
             "user:pass", "root:toor", ":", "a:b", "abcd:efgh", "QUJD:REVG", "salt:digest", "héllo: wörld"]
     base += ["".join(rng.choice("abc é0") for _ in range(rng.randint(1, 30))) for _ in range(4)]
-    out = []
+    # byte-string secrets that are not UTF-8 come first: the quick tier keeps the head of this list
+    out = [b"\xff\xfe\x00raw", b"caf\xe9", b"\x80", b"\xc3(", b"ok-ascii"]
     for s in base:
         out.append(s)
         if rng.random() < 0.4:
             out.append(s.encode())
-    out.append(b"\xff\xfe\x00raw")
     return out
 
 
@@ -211,7 +211,7 @@ def run(ctx):
         fld = schema._fields["pw"]
         secs = secrets(rng)
         if not ctx.thorough():
-            secs = secs[:16] + rng.sample(secs[16:], min(3, len(secs) - 16))
+            secs = secs[:21] + rng.sample(secs[21:], min(3, len(secs) - 21))
         for p in secs:
             cfg = schema()
             with Tape(rng) as tp:
